@@ -403,6 +403,15 @@ try:
 except KeyboardInterrupt:
     print(json.dumps({"interrupted": True})); sys.exit(0)
 out = {"file": p3.__file__}
+if mode == "lateuse":
+    # the tables change AFTER this process imported pybes3 and BEFORE its first lookup (= cache creation)
+    geom = os.path.join(os.path.dirname(p3.__file__), "detectors", "geometry")
+    out["bumped"] = {}
+    for t, key in (("mdc", "east_x"), ("emc", "center_x")):
+        d = dict(np.load(os.path.join(geom, t + "_geom.npz")))
+        a = d[key].copy(); a.flat[0] = a.flat[0] + 1.0; d[key] = a
+        np.savez(os.path.join(geom, t + "_geom.npz"), **d)
+        out["bumped"][t] = float(a.flat[0]).hex()
 if mode == "clear":
     from pybes3._cache_numba import clear_numba_cache
     clear_numba_cache()
@@ -496,6 +505,18 @@ def e2e(src, level):
         expect(all(cc.get(n) != v for n, v in ca.items() if n.startswith("mdc.")), "e2e:stale-mdc-cache-kept", "an mdc cache file survived the table update unchanged")
         expect(all(cc.get(n) == v for n, v in ca.items() if n.startswith("emc.")), "e2e:emc-cache-touched", "emc caches changed although only the mdc table changed")
         expect(c["emc"] == a["emc"], "e2e:emc-values", "emc values changed")
+        # H: history  forced clear -> import -> table update -> first use (cache creation) -> import + lookup in a new process.
+        # The caches written in the second step are newer than the tables, so nothing may be removed afterwards - which is only right
+        # if they were compiled from the tables as they were at first use (tables are read lazily, not at import).
+        run("clear")
+        expect(caches() == {}, "e2e:forced-clear-leaves-files", f"left after clear_numba_cache(): {sorted(caches())}")
+        h1 = run("lateuse")
+        h2 = run("use")
+        for t, got in (("mdc", h2["mdc"][0]), ("emc", h2["emc"][0])):
+            expect(got == h1["bumped"][t], f"e2e:stale-value:update-between-import-and-first-use:{t}",
+                   f"history clear -> import -> {t}_geom.npz updated ({h1['bumped'][t]}) -> first use -> new process: lookup returns {got}; "
+                   f"the cache created at first use is newer than the table but holds the table as it was at import")
+        c = h2
         if level == "full":
             # D/E: interrupted clean-up (after 1 removal), then retry
             newe = bump("emc_geom.npz", "center_x")
